@@ -390,7 +390,7 @@ def jobs(tier):
     def add(fn, timeout, **part):
         J.append({"module": "c01", "fn": fn, "part": part, "timeout": timeout})
 
-    T = 150 if q else 900
+    T = 300 if q else 900
     N = 3 if q else 4
     for S in (1, 2, 3) if q else (1, 2, 3, 4):
         add("h_tool", T, tool="zip", S=S, N=(N if S < 3 else (2 if q else 3)))
